@@ -16,11 +16,11 @@ import (
 	"os"
 	"path/filepath"
 	"regexp"
+	"runtime/debug"
 	"sort"
 	"strconv"
 	"strings"
 	"sync"
-	"testing"
 	"time"
 
 	"verif/lib/prng"
@@ -146,11 +146,47 @@ func newH(prop, level string) *H {
 	return h
 }
 
-// Main is called from TestMain of a property package.
-func Main(m *testing.M, prop, level string) {
-	global = newH(prop, level)
-	code := m.Run()
-	os.Exit(global.Finish(code))
+// Layer is one monitor of a property (a workload plus its oracle).
+type Layer struct {
+	Name string
+	Run  func(h *H)
+}
+
+// Main is the entry point of a property binary: it runs the layers in order (only the
+// replayed one during --replay; only those named in VERIF_LAYERS, comma separated, when
+// set), writes the evidence file and exits with the verdict code. A panic in a monitor
+// is a broken check (exit 2), never a verdict; monitors that expect panics from the code
+// under test recover them themselves and report a Violation.
+func Main(prop, level string, layers ...Layer) {
+	h := newH(prop, level)
+	global = h
+	code := 0
+	only := map[string]bool{}
+	for _, l := range strings.Split(os.Getenv("VERIF_LAYERS"), ",") {
+		if l != "" {
+			only[l] = true
+		}
+	}
+	func() {
+		defer func() {
+			if r := recover(); r != nil {
+				fmt.Printf("HARNESS-ERROR: monitor panicked: %v\n%s\n", r, debug.Stack())
+				code = 2
+			}
+		}()
+		for _, l := range layers {
+			if h.replay != nil && h.replay.Layer != "" && h.replay.Layer != l.Name {
+				continue
+			}
+			if len(only) > 0 && !only[l.Name] {
+				continue
+			}
+			t0 := time.Now()
+			l.Run(h)
+			h.SetExtra("wall_s_"+l.Name, time.Since(t0).Seconds())
+		}
+	}()
+	os.Exit(h.Finish(code))
 }
 
 func Get() *H { return global }
@@ -306,6 +342,9 @@ func (h *H) Violation(layer string, c int, sig, what string, witness any) {
 	}
 	rs := ReplaySpec{Property: h.Prop, Seed: h.seed, Tier: h.tier, Layer: layer, Case: c, Signature: sig, What: what, Witness: wb}
 	dir := filepath.Join(h.root, "replays", h.Prop)
+	if d := os.Getenv("VERIF_REPLAY_DIR"); d != "" {
+		dir = filepath.Join(d, h.Prop)
+	}
 	_ = os.MkdirAll(dir, 0o755)
 	hs := sha256.Sum256([]byte(sig))
 	path := filepath.Join(dir, fmt.Sprintf("%s-%s-s%d-c%d-%d.json", sanitize(sig), hex.EncodeToString(hs[:3]), h.seed, c, n))
@@ -416,7 +455,6 @@ func (h *H) Finish(testCode int) int {
 		return 1
 	}
 	if testCode != 0 {
-		fmt.Printf("HARNESS-ERROR: test binary failed without a recorded violation (harness assertion or panic)\n")
 		return 2
 	}
 	if h.replay == nil && (h.evals < 1 || len(h.distinct) < h.minDistinct) {
